@@ -18,6 +18,12 @@ func vFirstOwnTermIndex(s *vSnap) (uint64, bool) {
 
 func vh_SUB() {
 	ids := []string{"n1", "n2", "n3"}
+	single := vNondetBool("single-server")
+	if single {
+		ids = []string{"n1"}
+		vTag("single", "yes")
+	}
+	peers := len(ids) - 1
 	n := vBuildNode(vNodeSpec{name: "l", self: "n1", ids: ids, maxLog: vBound("log"), dataLen: 1,
 		states: []State{Leader, Follower, PreCandidate, Candidate, Shutdown}, members: "all-voters"})
 	r := n.r
@@ -82,7 +88,7 @@ func vh_SUB() {
 			vAssert(post.terms[i] == pre.terms[i], "C01|C07.leader-append-only")
 		}
 		// replication is attempted towards every other member, with the entry already durable
-		vAssert(n.tr.sentCount("AE", true) == 2, "C04.replication-triggered-to-all-peers")
+		vAssert(n.tr.sentCount("AE", true) == peers, "C04.replication-triggered-to-all-peers")
 		return
 	}
 	vCover("read-only")
@@ -94,7 +100,7 @@ func vh_SUB() {
 			continue
 		}
 		vAssert(vAnd(op.OperationType == opType, vAnd(len(op.Bytes) == 1, op.Bytes[0] == data[0])), "C05|C19.read-carries-the-operation")
-		vAssert(!op.quorumVerified, "C05.read-starts-unverified")
+		vAssert(vOr(!op.quorumVerified, single && kind == 1 && shouldVerify), "C05.read-starts-unverified")
 		// everything acknowledged before this read was invoked is at or below readIndex:
 		// (a) readIndex >= commitIndex at submission; (b) readIndex reaches the leader's first own-term
 		// entry, which follows every entry an earlier leader acknowledged
@@ -109,7 +115,15 @@ func vh_SUB() {
 	if kind == 1 {
 		vCover("linearizable-read")
 		if shouldVerify {
-			vAssert(vAnd(r.operationManager.rounds == preRounds+1, n.tr.sentCount("AE", true) == 2), "C05.read-starts-a-confirmation-round")
+			vAssert(vAnd(r.operationManager.rounds == preRounds+1, n.tr.sentCount("AE", true) == peers), "C05.read-starts-a-confirmation-round")
+			if single {
+				// a single voter is its own majority: the round it just started confirms the read at once
+				for op, ch := range r.operationManager.pendingReadOnly {
+					if ch == f.responseCh {
+						vAssert(op.quorumVerified, "C05|C15.single-server-read-verified-by-its-own-round")
+					}
+				}
+			}
 		}
 	}
 }
